@@ -80,6 +80,7 @@ func (w *walWriter) appendSync(encodedBatch []byte) (walAppendResult, error) {
 	}
 
 	w.currentWALSyncedOffset = logicalOffset
+	verifPoint("append-synced")
 	return walAppendResult{walNum: walNum, committed: true}, nil
 }
 
